@@ -303,6 +303,8 @@ func c13Grid(t *testing.T, tier string, shard, shards int, c *h.Collector) {
 	}
 	if shard == 0 {
 		c13EndToEnd(t, c)
+		c13Replaced(t, c)
+		c13Large(c)
 	}
 	if len(c.R.Samples) < 1 {
 		c.R.Samples = append(c.R.Samples, map[string]any{"pods": shapes[len(shapes)/2].String(), "note": "one of the enumerated pod shapes"})
@@ -399,12 +401,75 @@ func c13EndToEnd(t *testing.T, c *h.Collector) {
 	}
 }
 
+// c13Replaced: two scans; between them every pod is deleted and re-created under the same name with
+// another shape. The second scan's gauges must reflect the pods as listed now.
+func c13Replaced(t *testing.T, c *h.Collector) {
+	shapes := c13Shapes()
+	pairs := [][2]int{{37, 1203}, {1203, 37}, {311, 0}, {0, 1921}, {702, 703}}
+	for _, pr := range pairs {
+		g := StdGroup("g1")
+		g.Opts.MinNodes, g.Opts.MaxNodes = 0, 10
+		g.Opts.TaintLowerCapacityThresholdPercent, g.Opts.TaintUpperCapacityThresholdPercent, g.Opts.ScaleUpThresholdPercent = 1, 2, 100000
+		g.Opts.SlowNodeRemovalRate, g.Opts.FastNodeRemovalRate = 0, 0
+		mkPod := func(i int) *v1.Pod {
+			p := shapes[i].build("worker-0")
+			p.Spec.NodeSelector = sel(g)
+			p.Status.Phase = v1.PodRunning
+			return p
+		}
+		s := &h.Scenario{Name: "c13.replaced", Groups: []h.GroupSpec{g}, Slots: 2, Quantum: Q,
+			Init: func(hh *h.Hist) {
+				a := InitASGs(hh)[0]
+				hh.W.AddNode(a, sim.NodeOpt{Age: 10 * Q})
+				hh.W.AddNode(a, sim.NodeOpt{Age: 11 * Q})
+				hh.W.Pods = append(hh.W.Pods, mkPod(pr[0]))
+			},
+			Script: func(hh *h.Hist, slot int) {
+				if slot == 1 {
+					hh.W.Pods = []*v1.Pod{mkPod(pr[1])}
+				}
+			}}
+		hh := RunCase(t, s)
+		c.R.Evaluations++
+		c.R.Scans += hh.Scans
+		wantCPU, wantMem := shapes[pr[1]].exact()
+		gotCPU := gaugeValue(metrics.NodeGroupCPURequest.WithLabelValues("g1"))
+		gotMem := gaugeValue(metrics.NodeGroupMemRequest.WithLabelValues("g1"))
+		if gotCPU != float64(wantCPU) || gotMem != float64(wantMem) {
+			c.Report(h.Found{Violation: h.Violation{Prop: "C13", Sig: "C13/e2e-requests-after-replacement", Msg: fmt.Sprintf("pod %s replaced by %s under the same name between two scans: gauges report %v m / %v B, the pod listed now requests %d m / %d B", shapes[pr[0]], shapes[pr[1]], gotCPU, gotMem, wantCPU, wantMem)},
+				Scenario: "c13.replaced", Case: map[string]any{"first": shapes[pr[0]].String(), "second": shapes[pr[1]].String()}})
+		}
+		c.Nontrivial(fmt.Sprint("replaced/", pr))
+	}
+}
+
+// c13Large: percent for clusters of hundreds of big nodes (memory totals of 25..250 TiB).
+func c13Large(c *h.Collector) {
+	for _, n := range []int64{100, 400, 1000} {
+		for _, pct := range []int64{50, 86, 99, 150} {
+			capMem := n * (256 << 30)
+			reqMem := capMem / 100 * pct
+			capCPU, reqCPU := n*64000, n*640*pct
+			req := k8s.PodRequestedUsage{}
+			req.Total.MilliCPU, req.Total.Memory = reqCPU, reqMem
+			cap := k8s.NodeAvailableCapacity{}
+			cap.Total.MilliCPU, cap.Total.Memory = capCPU, capMem
+			cp, mp, err := controller.VerifCalcPercentUsage(*req.Total.GetCPUQuantity(), *req.Total.GetMemoryQuantity(), *cap.Total.GetCPUQuantity(), *cap.Total.GetMemoryQuantity(), n)
+			c.R.Evaluations++
+			c.Nontrivial(fmt.Sprint("large/", n, pct))
+			if err != nil || !closeTo(cp, reqCPU, capCPU) || !closeTo(mp, reqMem, capMem) {
+				c.Report(h.Found{Violation: h.Violation{Prop: "C13", Sig: "C13/percent-large-cluster", Msg: fmt.Sprintf("%d nodes of 64 cores / 256 GiB at %d %%: computed %v %% / %v %% (err %v)", n, pct, cp, mp, err)}, Scenario: "c13.large", Case: map[string]any{"nodes": n, "percent": pct}})
+			}
+		}
+	}
+}
+
 func init() {
 	register(&Check{
 		ID:    "C13",
 		Level: "exploration",
 		Rule: "every pod shape of the universe (0..2 containers x 0..2 init containers over a 5-value request alphabet with absent, milli, fractional, binary and decimal notations, overhead on/off: 1922 shapes), every pair / triple over fixed sub-universes, every node multiset of <= 3 over {1000m/4Gi, 3900m/16G, no allocatable}, in every permutation of both lists, through the real calculators, compared with an independent exact parser; " +
-			"end to end: single scans over every order of a mixed node list (untainted, tainted, cordoned, force-tainted, odd sizes) reading the request/capacity/percent gauges; non-trivial = every enumerated multiset; distinct by its members",
+			"end to end: single scans over every order of a mixed node list (untainted, tainted, cordoned, force-tainted, odd sizes) reading the request/capacity/percent gauges; two-scan histories in which a pod is re-created under the same name with another shape; clusters of 100..1000 nodes of 256 GiB; non-trivial = every enumerated multiset; distinct by its members",
 		Grid:        c13Grid,
 		Assumptions: append([]string{"the quantity alphabet contains no value finer than a millicore or a byte (the statement does not define rounding)", "that the larger of cpu% and mem% drives decisions is decided by C06's memory-driven cases"}, commonAssumptions...),
 	})
